@@ -59,7 +59,7 @@ def evaluate(ctx, progs):
             for l in p.stdout.split("\n"):
                 f = l.split("\t")
                 if len(f) >= 4:
-                    res[f[0]] = f[1:] + [""] * (13 - len(f[1:]))
+                    res[f[0]] = f[1:] + [""] * (12 - len(f[1:]))
     n = {"EQ": 0, "EQT": 0, "DIFF": 0, "UNSUPPORTED": 0}
     n_in = n_out = n_from_mono = 0
     agree_m = definite_m = 0
@@ -71,7 +71,6 @@ def evaluate(ctx, progs):
     e2e_reasons, e2e_samples, e2e_by_stream = {}, [], {}
     n_dce_ok = n_emit = emit_def = emit_agree = 0
     dce_reasons, emit_samples = {}, []
-    n_dce_static = n_emit_static = 0
     for pid, *_ in [l.split("\t", 1) for l in lines]:
         r = res.get(pid)
         if r is None:
@@ -122,10 +121,6 @@ def evaluate(ctx, progs):
             else:
                 for k in sorted({":".join(x.strip().split(":")[::2]) for x in r[11].split(";") if x.strip()}):
                     dce_reasons[k] = dce_reasons.get(k, 0) + 1
-            if r[12] == "dceStatic=OK":
-                n_dce_static += 1
-                if r[7] == "E2E-IN":
-                    n_emit_static += 1
             if r[10] == "EMIT-IN":
                 n_emit += 1
                 if len(emit_samples) < 5:
@@ -207,8 +202,6 @@ def evaluate(ctx, progs):
             "in_InEmitFragment_with_definite_core_run": emit_def,
             "of_those_real_emitted_go_outcome(Go.Sem)_equals_core_outcome(Sem)": emit_agree,
             "samples_in_InEmitFragment": emit_samples,
-            "REPORT_ONLY_compiled_files_inside_the_contract_if_e.f_on_a_non-pointer_static_type_counted_as_inert(inertSyn true, validated not proved)": n_dce_static,
-            "REPORT_ONLY_InE2EFragment_and_that": n_emit_static,
         },
         "samples_inside": samples_in, "samples_outside": samples_out, "diff_samples": diffs[:5],
     })
